@@ -718,10 +718,53 @@ func (e *driverEnv) confirmAndMinimise(pl plan, f found) (path string, sigs []st
 	}
 	os.Remove(descPath)
 	if len(sigs) == 0 {
-		// Seen in a batch (or across processes) but not when run alone: report what
-		// was seen; the replay file names the batch prefix that showed it.
+		// Seen in a batch but not when run alone: package-level state left behind by
+		// earlier runs of that worker process matters.  Replay the batch prefix, then
+		// shorten it from the front as far as the violation persists.
+		d = generate(e.prop, e.tier, e.base, f.runIndex)
 		d.Expect = f.sig
-		d.Note = fmt.Sprintf("observed in worker batch from=%d n=%d; does not reproduce when the run is executed alone. %s", f.batch[0], f.batch[1], clip(f.detail, 600))
+		tryPrefix := func(from uint64) bool {
+			c := d.clone()
+			c.PrefixFrom = &from
+			p := filepath.Join(e.tmp, fmt.Sprintf("prefix-%d.json", time.Now().UnixNano()))
+			if writeJSON(p, c) != nil {
+				return false
+			}
+			defer os.Remove(p)
+			r, rl, se, er := e.execSingle(race, 0, "replay", "-file", p)
+			got := sigsOf(r, rl, se, er)
+			if f.sig == "race" {
+				for _, g := range got {
+					if strings.HasPrefix(g, "race") {
+						return true
+					}
+				}
+			}
+			return contains(got, f.sig)
+		}
+		from := f.batch[0]
+		if from <= f.runIndex && tryPrefix(from) {
+			// shorten: the latest start that still shows it (doubling back from the target)
+			best := from
+			for back := uint64(1); f.runIndex >= back && f.runIndex-back > from; back *= 2 {
+				if tryPrefix(f.runIndex - back) {
+					best = f.runIndex - back
+					break
+				}
+			}
+			d.PrefixFrom = &best
+			ok := 0
+			for i := 0; i < 3; i++ {
+				if tryPrefix(best) {
+					ok++
+				}
+			}
+			d.Reproduced = fmt.Sprintf("%d/3", ok)
+			d.Note = fmt.Sprintf("needs the runs %d..%d of the same process first (package-level state); not reproducible as a single run", best, f.runIndex-1)
+			_ = writeJSON(path, d)
+			return path, []string{f.sig}, f.detail
+		}
+		d.Note = fmt.Sprintf("observed in worker batch from=%d n=%d; reproduces neither alone nor after the batch prefix. %s", f.batch[0], f.batch[1], clip(f.detail, 600))
 		d.Reproduced = "0/3"
 		_ = writeJSON(path, d)
 		return path, []string{f.sig}, f.detail
